@@ -32,8 +32,8 @@ PATHS = ["/", "/a", "/a/b", "/c"]
 # candidate paths for is_cooler: the alphabet, paths a nested copy can create, a dataset, a plain
 # group inside a collection, something below a dataset
 CANDS = ["/", "/a", "/a/b", "/c", "/b", "/c/b", "/c/a", "/a/b/b", "/a/bins/start", "/a/pixels", "/bins/start/x"]
-FLAGS = ("d4", "d5", "d20")
-FID = {"d4": "D4", "d5": "D5", "d20": "D20"}
+FLAGS = ("d4", "d5")
+FID = {"d4": "D4", "d5": "D5"}
 
 LEVELS = {"history": "top", "fan": "top", "errclass": "unit", "parse_uri": "unit", "constants": "top"}
 DESCRIBE = {
@@ -210,7 +210,6 @@ def _applicable(op, vops):
             out.add("d4")
     for o in hist:
         if o["op"] == "lns":
-            out.add("d20")
             s, d = _files_of(o)
             if s != d:
                 out.add("d5")
@@ -573,8 +572,10 @@ CORPUS = [
     [_mk_create(FA, "/a", "a", 1), _mk_copy("mv", FA, "/a", FB, "/c")],
     # D5: external link listed under the target's name
     [_mk_create(FA, "/a/b", "a", 1), _mk_copy("lns", FA, "/a/b", FB, "/c")],
-    # unresolvable link (proposed D20)
+    # D22 (fixed): links that do not resolve — is_cooler false, list_coolers walks past them
     [_mk_create(FA, "/a", "a", 1), _mk_copy("lns", FA, "/a/b", FA, "/c")],
+    [_mk_create(FA, "/", "a", 1), _mk_copy("lns", FA, "/a/b", FA, "/c")],
+    [_mk_create(FA, "/a", "a", 1), _mk_copy("lns", FA, "/a", FB, "/c"), _mk_create(FA, "/c", "w", 2)],
     # re-create over a group that holds a nested collection; root re-creation keeps other children and attributes
     [{"op": "note", "file": FA, "value": "keep-me"}, _mk_create(FA, "/a/b", "a", 1), _mk_create(FA, "/", "a", 2),
      _mk_create(FA, "/", "r+", 3), _mk_create(FA, "/a", "a", 4)],
@@ -667,7 +668,7 @@ def classify(name, case, result, findings):
     implementation's observation equals the Lean model's under exactly that variant"""
     if name not in ("history", "fan") or not isinstance(result, dict) or "known" not in result:
         return None
-    ids = {f["id"] for f in findings} | {"D20"}
+    ids = {f["id"] for f in findings}
     first = None
     for d in result["known"]:
         ops, flags, k = d["ops"], d["flags"], d["step"]
